@@ -170,6 +170,65 @@ def rule_I2(ctx, F):
            "Ok(self) only on the Continue edge of copy_wide(..)?")
 
 
+def rule_I4(ctx, F):
+    """overrides of the provided std::io::Write methods on Hasher (write_vectored, write_all, ...).  Each one that hashes inside a
+    loop must report a byte count that ACCUMULATES over the iterations: a count overwritten by the last iteration's result tells the
+    caller that earlier buffers were not consumed, and a contract-abiding caller offers them again (they are hashed twice).
+    Decided positively only: the obligation fails when the returned local is assigned inside the loop from a value that does not
+    depend on its own previous value; counts produced by other means (iterator sum, ...) are reported as not decided, not as alarms."""
+    n = 0
+    for p, f in sorted(F.fns.items()):
+        np_ = norm_path(p)
+        if not (np_.startswith("<Hasher as core::io::Write>::") and f.has_body):
+            continue
+        meth = np_.rsplit("::", 1)[1]
+        if meth in ("write", "flush"):
+            continue
+        n += 1
+        hashing = [bi for bi, t in f.calls() if callee_name(t["callee"]) in ("Hasher::update", "Hasher::update_rayon") or norm_path(callee_name(t["callee"])).startswith("<Hasher as core::io::Write>::write")]
+        reach = {b: f.reachable(b) for b in hashing}
+        in_loop = [b for b in hashing if any(b in f.reachable(s_) for s_ in f.succ(b))]
+        if not in_loop:
+            ctx.ob(True, "write-override:%s" % meth, f.loc, "%s hashes outside any loop (%d call(s)); nothing to accumulate" % (meth, len(hashing)))
+            continue
+        # the local carried by Ok(..) in the returned aggregate
+        carried = set()
+        for bi, si, s_ in f.stmts():
+            rv = s_["rv"]
+            if s_["place"]["l"] == 0 and rv.get("k") == "agg" and rv.get("variant") == "Ok" and rv.get("ops"):
+                op = rv["ops"][0]
+                if op.get("k") in ("copy", "move") and not op["place"]["p"]:
+                    carried.add(op["place"]["l"])
+        if not carried:
+            ctx.info("write override %s: returned count is not a plain local; not decided" % meth)
+            ctx.ob(True, "write-override:%s" % meth, f.loc, "count produced by other means; not decided")
+            continue
+        # follow single-definition plain copies backwards to the accumulator
+        defs_of = {}
+        for bi, si, s_ in f.stmts():
+            if not s_["place"]["p"]:
+                defs_of.setdefault(s_["place"]["l"], []).append(s_)
+        work = list(carried)
+        while work:
+            l = work.pop()
+            ds = defs_of.get(l, [])
+            if len(ds) == 1 and ds[0]["rv"].get("k") == "use" and ds[0]["rv"]["op"].get("k") in ("copy", "move") and not ds[0]["rv"]["op"]["place"]["p"]:
+                src = ds[0]["rv"]["op"]["place"]["l"]
+                if src not in carried:
+                    carried.add(src)
+                    work.append(src)
+        bad = []
+        for l in sorted(carried):
+            for bi, si, s_ in f.stmts():
+                if s_["place"]["l"] == l and not s_["place"]["p"] and any(bi in f.reachable(s2) for s2 in f.succ(bi)):
+                    e = show(val(f.expr_rvalue(s_["rv"])))
+                    selfdep = ("phi(_%d" % l) in e or ("_%d:" % l) in e
+                    if not ("Add" in e and selfdep):
+                        bad.append("%s: count := %s inside the loop" % (s_.get("s", "?"), e[:90]))
+        ctx.ob(not bad, "write-override:%s" % meth, f.loc, "; ".join(bad) or "%s accumulates its count across iterations" % meth)
+    ctx.info("Write overrides beyond write/flush: %d" % n)
+
+
 def rule_I3(ctx, F):
     mm = F.need_fn("io::maybe_mmap_file")
     K = P.bin("Sub", P.named("io::MINIMUM_MMAP_SIZE"), P.const(1))
